@@ -42,9 +42,9 @@ Example ex1_hypotheses :
   codec_ok (B "utf-16") /\ c_enc ascii ex1_e = Some (B "utf-16") /\ ex1_t <> [] /\
   (exists x, py_encode ex1_t (B "utf-16") = Ok x) /\ le_arg ex1_le /\ indent_arg (WInt 4).
 Proof.
-  split; [apply (codec_ok_utf16 _ utf16); vm_compute; reflexivity|].
+  split; [apply (codec_ok_utf16 _ utf16); reflexivity|].
   split; [vm_compute; reflexivity|]. split; [discriminate|].
-  split; [eexists; vm_compute; reflexivity|].
+  split; [eexists (match py_encode _ _ with Ok x => x | Err _ => [] end); vm_compute; reflexivity|].
   split; [apply la_decl; cbv; auto | apply ia_int; lia].
 Qed.
 
@@ -99,9 +99,9 @@ Example ex2_hypotheses :
   codec_ok (B "utf-8") /\ c_enc ascii ex2_e = Some (B "utf-8") /\ ex2_t <> [] /\
   (exists x, py_encode ex2_t (B "utf-8") = Ok x) /\ le_arg WNone /\ indent_arg WNone /\ indent_arg (WInt 2).
 Proof.
-  split; [apply (codec_ok_utf8 _ utf8); vm_compute; reflexivity|].
+  split; [apply (codec_ok_utf8 _ utf8); reflexivity|].
   split; [vm_compute; reflexivity|]. split; [discriminate|].
-  split; [eexists; vm_compute; reflexivity|].
+  split; [eexists (match py_encode _ _ with Ok x => x | Err _ => [] end); vm_compute; reflexivity|].
   split; [apply la_none|]. split; [apply ia_none | apply ia_int; lia].
 Qed.
 
@@ -126,7 +126,7 @@ Proof. vm_compute. reflexivity. Qed.
 Example ex3_hypotheses :
   codec_ok (B "ascii") /\ ex3_b <> [] /\ le_arg WNone /\ diff_enc_ok (B "ascii") WNone.
 Proof.
-  split; [apply (codec_ok_ascii _ ascii); vm_compute; reflexivity|].
+  split; [apply (codec_ok_ascii _ ascii); reflexivity|].
   split; [discriminate|]. split; [apply la_none | apply dk_none; reflexivity].
 Qed.
 
@@ -141,7 +141,7 @@ Example ex4_diff_utf16le :
   codec_ok (B "utf-16-le") /\ diff_enc_ok (B "utf-16-le") (WStr (ascii_text (B "utf-16-le"))).
 Proof.
   split; [vm_compute; reflexivity|]. split; [vm_compute; reflexivity|].
-  split; [apply (codec_ok_utf16le _ utf16le); vm_compute; reflexivity | apply dk_str; vm_compute; reflexivity].
+  split; [apply (codec_ok_utf16le _ utf16le); reflexivity | apply dk_str; vm_compute; reflexivity].
 Qed.
 
 (* ------------------------------------------------------------------------------------------------ *)
@@ -160,5 +160,5 @@ Example ex5_meta :
   codec_ok_aligned (B "latin-1") /\ find N.eqb (nl_text GenText.le_unix) ex5_t <> None.
 Proof.
   split; [vm_compute; reflexivity|]. split; [vm_compute; reflexivity|].
-  split; [apply (codec_ok_aligned_latin1 _ latin1); vm_compute; reflexivity | vm_compute; discriminate].
+  split; [apply (codec_ok_aligned_latin1 _ latin1); reflexivity | vm_compute; discriminate].
 Qed.
